@@ -56,6 +56,20 @@ Fail check_view(V&& v, MView const& m, P data, idx N, Opt opt = {}) {
 		auto x0 = v.extension();
 		if(x0.size() != m.d[0].size) { return fail("extension", "extension().size=" + S(x0.size())); }
 	}
+	// representation invariant of the stored layout: at every level the element span is exactly size x stride (size() is computed as nelems/stride, so a span that is not a
+	// multiple of the stride is floored away by size() but is used as it stands by flatted(), end(), partitioned(): a latent error one operation later)
+	{
+		std::string lw; int lvl = 0;
+		auto chk = [&](auto const& self, auto const& l) -> void {
+			using L = std::decay_t<decltype(l)>;
+			if constexpr(L::dimensionality > 0) {
+				if(lw.empty() && l.stride() != 0 && l.nelems() != l.size()*l.stride()) { lw = "level " + S(lvl) + ": nelems()=" + S(l.nelems()) + " size()=" + S(l.size()) + " stride()=" + S(l.stride()); }
+				++lvl; self(self, l.sub());
+			}
+		};
+		chk(chk, v.layout());
+		if(!lw.empty()) { return fail("layout-span", lw); }
+	}
 	bool const nonempty = !m.has_empty_dim();
 	if(nonempty) {
 		auto str = tup_vec_impl(v.strides(), SEQ);
